@@ -1,6 +1,6 @@
 /-
   C15 — property theorems (and non-vacuity examples) ONLY.  Helper lemmas: `Lemmas.lean`, `Inv.lean`,
-  `Steps.lean`, `SpecLemmas.lean`, `Outside.lean`.
+  `Steps.lean`, `SpecLemmas.lean`, `Outside.lean`, `Ops.lean`.
 
   Property text: "For every set of cooperating tasks and every order of wake-ups, the single-threaded
   executor polls a task again whenever it has been woken since it last returned pending - including
@@ -17,19 +17,20 @@
 import YashModel.Executor.Steps
 import YashModel.Executor.SpecLemmas
 import YashModel.Executor.Outside
+import YashModel.Executor.Ops
 namespace YashModel.Executor
 
 /-- a state the executor can be in: `n` steps into the run of some task system -/
 def Reachable (s : State) : Prop :=
   ∃ (sticky : Bool) (scripts : List Script) (roots n : Nat), s = stepN n (init sticky scripts roots)
 
-theorem reachable_inv {s : State} (h : Reachable s) : InvX none s := by
+theorem reachable_inv {s : State} (h : Reachable s) : InvX false none s := by
   obtain ⟨sticky, scripts, roots, n, rfl⟩ := h
   exact inv_stepN n (inv_init sticky scripts roots)
 
 theorem reachable_trace {s : State} (h : Reachable s) : TraceInv s := by
   obtain ⟨sticky, scripts, roots, n, rfl⟩ := h
-  exact trace_stepN n (inv_init sticky scripts roots) (trace_init sticky scripts roots)
+  exact trace_stepN n (inv_init (ab := false) sticky scripts roots) (trace_init sticky scripts roots)
 
 example : Reachable (stepN 4 (init false [[.yield, .wait 0], [.signal 0, .spawn, .join], [.yield]] 2)) :=
   ⟨_, _, _, _, rfl⟩
@@ -37,8 +38,8 @@ example : Reachable (stepN 4 (init false [[.yield, .wait 0], [.signal 0, .spawn,
 /-- ★ The whole invariant is inductive over `Executor::step` from *any* state that satisfies it (not
     only from initial states), and holds initially for every task system. -/
 theorem inv_inductive :
-    (∀ sticky scripts roots, InvX none (init sticky scripts roots)) ∧
-    (∀ s r, InvX none s → step s = some r → InvX none r.1) :=
+    (∀ sticky scripts roots, InvX false none (init sticky scripts roots)) ∧
+    (∀ s r, InvX false none s → step s = some r → InvX false none r.1) :=
   ⟨inv_init, fun _ r h hs => inv_step h r hs⟩
 
 /-- ★ "queues a task at most once however often it is woken": the wake queue never holds a task
@@ -79,7 +80,7 @@ theorem signal_wakes_waiters (s : State) (k t : Nat) (h : t ∈ s.waiters k) : t
 theorem no_lost_wakeup (s : State) (h : Reachable s) (t : Nat) (acts : Script)
     (ht : t < s.ntasks) (hf : s.fut t = some acts) :
     t ∈ s.queue ∨ Blocked s t acts :=
-  (reachable_inv h).live t acts ht (by simp) hf
+  (reachable_inv h).live t acts rfl ht (by simp) hf
 
 /-- ★ "When the run loop stalls, every unfinished task is genuinely waiting for a wake-up that has not
     happened": with an empty queue, an unfinished task is at a `wait k` with its waker registered and
@@ -258,7 +259,7 @@ theorem outside_wakes_safe (s : State) (h : ReachableX s) :
     (∀ c, s.delivered c = if s.relay c = .done then 1 else 0) ∧
     s.bad = false ∧ checkB s = none := by
   obtain ⟨hi, ht⟩ := reachableX_inv h
-  exact ⟨hi.nodup, fun t acts htl hf => hi.live t acts htl (by simp) hf, ht.npaf, ht.brack, hi.deliv,
+  exact ⟨hi.nodup, fun t acts htl hf => hi.live t acts rfl htl (by simp) hf, ht.npaf, ht.brack, hi.deliv,
     hi.nobad, checkB_of_inv hi ht⟩
 
 /-- a run with a wake-up of a queued task from outside, a wake-up of a finished task, a cloned waker -/
@@ -329,5 +330,191 @@ theorem send_wakes_last_poller (f : FState) (w w' : Nat) (htx : f.tx = true) (hr
     simp [fstep, recvPoll, relaySend, htx, hrx, hr, upd_apply] <;> intro h e <;> exact absurd e h
 
 example : (frun {} [.poll 0, .poll 1, .send, .try_, .try_]).got = [7] := by decide
+
+/-! ### one invariant over all operation sequences; fairness under arbitrary interleavings -/
+
+/-- ★ At-most-once queuing, never-polled-after-completion, no re-entrant poll and exactly-once delivery as
+    ONE invariant over ALL operation sequences of the `v` cases (`xRunAll` is the function the driver
+    runs): `Executor::step`, whole `run_until_stalled` batches, wake-ups by value / by reference / through
+    clones from outside, signals, `Spawner::spawn` from outside, `try_receive`, throwing wakers away,
+    dropping the executor — in any order, from every task system.  As long as nothing has been thrown
+    away (`abandoned = false`, guaranteed when no `drop`/`dropExec` occurs) also "no lost wake-up" and the
+    whole executable Spec hold. -/
+theorem ops_invariant (sticky : Bool) (scripts : List Script) (roots : Nat) (ops : List XOp) :
+    let x := xRunAll { s := init sticky scripts roots } ops
+    x.s.queue.Nodup ∧ NoPollAfterFin x.s.log ∧ Bracketed x.s.log ∧
+    (∀ c, x.s.delivered c = if x.s.relay c = .done then 1 else 0) ∧ x.s.bad = false ∧
+    (x.dead = true → x.s.queue = []) ∧
+    ((∀ op, op ∈ ops → op.keeps = true) → x.abandoned = false ∧ x.dead = false) ∧
+    (x.abandoned = false →
+      (∀ t acts, t < x.s.ntasks → x.s.fut t = some acts → t ∈ x.s.queue ∨ Blocked x.s t acts) ∧
+      checkB x.s = none) := by
+  intro x
+  have h : XInv x := xinv_runAll _ ops (xinv_init sticky scripts roots)
+  refine ⟨h.inv.nodup, h.trace.npaf, h.trace.brack, h.inv.deliv, h.inv.nobad, fun hd => (h.dead hd).1,
+    fun hk => xRunAll_keeps _ ops hk rfl rfl, ?_⟩
+  intro ha
+  have hi : InvX false none x.s := ha ▸ h.inv
+  exact ⟨fun t acts ht hf => hi.live t acts rfl ht (by simp) hf, checkB_of_inv hi h.trace⟩
+
+example : (xRunAll { s := init true [[.wait 0, .yield], [.wait 0]] 2 }
+    [.step, .step, .byRef 0 0, .byRef 0 0, .clone 0 1, .wake 0 2, .rus, .drop 0 0, .dropExec, .wake 0 0]).s.log
+    = [.poll 0, .ret 0 false, .poll 1, .ret 1 false, .poll 0, .ret 0 false, .poll 1, .ret 1 false] := by decide
+
+/-- "When the run loop stalls …" after ANY operation sequence that threw nothing away: with an empty queue,
+    every unfinished task is registered with a token-less channel or has its waker in the relay of an
+    unfinished child. -/
+theorem stall_genuine_ops (sticky : Bool) (scripts : List Script) (roots : Nat) (ops : List XOp)
+    (hk : ∀ op, op ∈ ops → op.keeps = true) :
+    let x := xRunAll { s := init sticky scripts roots } ops
+    x.s.queue = [] → ∀ t acts, t < x.s.ntasks → x.s.fut t = some acts →
+      (∃ k rest, acts = .wait k :: rest ∧ t ∈ x.s.waiters k ∧ x.s.tokens k = 0) ∨
+      (∃ c cs rest, acts = .join :: rest ∧ x.s.kids t = c :: cs ∧ x.s.relay c = .polled t ∧
+        c < x.s.ntasks ∧ (x.s.fut c).isSome = true) := by
+  intro x hq t acts ht hf
+  have h : XInv x := xinv_runAll _ ops (xinv_init sticky scripts roots)
+  have ha := (xRunAll_keeps { s := init sticky scripts roots } ops hk rfl rfl).1
+  have hi : InvX false none x.s := ha ▸ h.inv
+  rcases hi.live t acts rfl ht (by simp) hf with hm | hb
+  · rw [hq] at hm; cases hm
+  · rcases hb with hw | ⟨c, cs, rest, ea, hk', hr⟩
+    · exact Or.inl hw
+    · right
+      have hc : c < x.s.ntasks := (hi.kid t c (by rw [hk']; simp)).1
+      refine ⟨c, cs, rest, ea, hk', hr, hc, ?_⟩
+      have hs := hi.sync c hc
+      rw [hr] at hs
+      cases hfc : x.s.fut c with
+      | none => exact absurd (hs.mp hfc) (by simp [Relay.sent])
+      | some _ => rfl
+
+/-- What popping a task does (`Task::poll`): an unfinished task's future IS polled (trace `poll t`,
+    `ret t b`, result `b`), and if it returns `Ready` the slot is emptied; a finished task's slot is not
+    touched and `true` is returned (trace `noop t`). -/
+theorem poll_runs_future (s : State) (t : Nat) :
+    (s.fut t = none → (poll s t).1.log = s.log ++ [.noop t] ∧ (poll s t).2 = true ∧
+      ∀ y, (poll s t).1.fut y = s.fut y) ∧
+    (∀ acts, s.fut t = some acts →
+      (poll s t).1.log = s.log ++ [.poll t, .ret t (poll s t).2] ∧
+      ((poll s t).2 = true → (poll s t).1.fut t = none)) := by
+  rcases poll_trace s t with ⟨hf, hl, hb, _, hfu⟩ | ⟨acts, hf, hl, _, _, hfin⟩
+  · exact ⟨fun _ => ⟨hl, hb, hfu⟩, fun a ha => (by rw [hf] at ha; cases ha)⟩
+  · exact ⟨fun hn => (by rw [hf] at hn; cases hn), fun _ _ => ⟨hl, hfin⟩⟩
+
+example : (poll { (init false [[.yield]] 1) with queue := [] } 0).1.log = [.poll 0, .ret 0 false] := by decide
+
+/-- ★ `run_until_stalled` is iterated `step`: its final state is `stepN`, its result counts exactly the
+    polls that returned `true` (`Ready`, and polls of emptied slots), and when it reports a stall the queue
+    is empty — so by `stall_genuine` every unfinished task is then genuinely waiting.  A batch inside an
+    operation sequence is the same as that many `step` operations. -/
+theorem run_until_stalled_spec (n : Nat) (s : State) (c : Nat) :
+    (runUntilStalled n s c).1 = stepN n s ∧
+    (∃ evs, (stepN n s).log = s.log ++ evs ∧ (runUntilStalled n s c).2.1 = c + evs.countP Ev.isDone) ∧
+    ((runUntilStalled n s c).2.2 = true → (stepN n s).queue = []) ∧
+    (∀ x : XState, x.dead = false → xRun x .rus = xRunAll x (List.replicate maxSteps .step)) := by
+  refine ⟨runUntilStalled_state n s c, runUntilStalled_count n s c, runUntilStalled_stalled n s c, ?_⟩
+  intro x hd
+  rw [xRunAll_steps maxSteps x hd]
+  simp only [xRun, hd, Bool.false_eq_true, if_false]
+  rw [runUntilStalled_state]
+
+example : (runUntilStalled 100 (init true [[.wait 0, .signal 0], [.signal 0]] 2) 0).2 = (3, true) := by decide
+
+/-- ★ FIFO order of the wake queue under ARBITRARY interleavings ("lets no woken task be starved by others
+    that keep re-waking themselves"; also not by outside wake-ups, signals or spawns through `Executor::spawn`
+    / `Spawner::spawn`, which all push behind): if `t` is at position `k` of the queue, then after any
+    sequence of operations (steps, outside wakes in every form, signals, spawns, `try_receive`, waker
+    clones/drops — everything but dropping the executor; batches are covered by `run_until_stalled_spec`)
+    that contains `j ≤ k` steps, `t` is at position `k - j`; so after exactly `k` steps it is at the front
+    and the next step polls it. -/
+theorem fifo_interleaved (x : XState) (hd : x.dead = false) (ops : List XOp)
+    (hp : ∀ op, op ∈ ops → op.plain = true) (k t : Nat) (hk : x.s.queue[k]? = some t) :
+    (ops.count .step ≤ k → (xRunAll x ops).s.queue[k - ops.count .step]? = some t) ∧
+    (ops.count .step = k → ∃ q, (xRunAll x ops).s.queue = t :: q ∧
+      (xRun (xRunAll x ops) .step).s = (poll { (xRunAll x ops).s with queue := q } t).1) := by
+  refine ⟨fun hc => (fifo_position ops x hd hp k t hk hc).2, ?_⟩
+  intro hc
+  obtain ⟨hd', hpos⟩ := fifo_position ops x hd hp k t hk (Nat.le_of_eq hc)
+  rw [hc, Nat.sub_self] at hpos
+  cases hq : (xRunAll x ops).s.queue with
+  | nil => rw [hq] at hpos; cases hpos
+  | cons a q =>
+    rw [hq] at hpos
+    simp only [List.getElem?_cons_zero, Option.some.injEq] at hpos
+    subst hpos
+    refine ⟨q, rfl, ?_⟩
+    simp only [xRun, hd', Bool.false_eq_true, if_false]
+    rw [stepN_one]
+    simp [step, hq]
+
+/-- ★ "a task woken before another is polled before it": if `a` is ahead of `b` in the queue (positions
+    `i < j`), then under any interleaving, at the moment `a` reaches the front (after `i` steps) `b` is
+    still queued behind it (position `j - i > 0`) — `b` is never polled before `a`. -/
+theorem fifo_order (x : XState) (hd : x.dead = false) (ops : List XOp)
+    (hp : ∀ op, op ∈ ops → op.plain = true) (i j a b : Nat) (hij : i < j)
+    (ha : x.s.queue[i]? = some a) (hb : x.s.queue[j]? = some b) (hc : ops.count .step = i) :
+    (xRunAll x ops).s.queue[0]? = some a ∧ (xRunAll x ops).s.queue[j - i]? = some b ∧ 0 < j - i := by
+  have h1 := (fifo_position ops x hd hp i a ha (Nat.le_of_eq hc)).2
+  have h2 := (fifo_position ops x hd hp j b hb (by omega)).2
+  rw [hc] at h1 h2
+  rw [Nat.sub_self] at h1
+  exact ⟨h1, h2, by omega⟩
+
+/-- ★ "a task queued at step t is polled within |queue at t| steps", under any interleaving: after a
+    wake-up, the task sits at a position `k < |queue|`, and whatever else happens it is at the front after
+    exactly `k` further steps. -/
+theorem woken_polled_interleaved (x : XState) (hd : x.dead = false) (t : Nat) :
+    ∃ k, k < (wake x.s t).queue.length ∧
+      ∀ ops : List XOp, (∀ op, op ∈ ops → op.plain = true) → ops.count .step = k →
+        ∃ q, (xRunAll { x with s := wake x.s t } ops).s.queue = t :: q := by
+  have hm : t ∈ (wake x.s t).queue := mem_enq_self _ _
+  obtain ⟨k, hk, hkt⟩ := List.getElem_of_mem hm
+  refine ⟨k, hk, fun ops hp hc => ?_⟩
+  obtain ⟨q, hq, _⟩ := (fifo_interleaved { x with s := wake x.s t } hd ops hp k t
+    (by show (wake x.s t).queue[k]? = some t; rw [List.getElem?_eq_getElem hk, hkt])).2 hc
+  exact ⟨q, hq⟩
+
+example : (xRunAll { s := init false [[.yield, .yield, .yield], [.wait 0], [.signal 0]] 3 }
+    [.step, .spawn, .step, .signal 0]).s.queue[2 - 2]? = some 2 := by decide
+
+/-- ★ Every way of spawning pushes the new task to the BACK of the queue (never in front of a task that
+    is already waiting to be polled): `Executor::spawn` of the roots (queued in order `0,1,…`),
+    `Spawner::spawn` from outside any poll, and `Spawner::spawn` by a task during its poll. -/
+theorem spawn_goes_to_back :
+    (∀ sticky scripts roots, (init sticky scripts roots).queue = List.range' 0 (scripts.take roots).length) ∧
+    (∀ (x : XState) sc rest, x.dead = false → x.s.pool = sc :: rest →
+      (xRun x .spawn).s.queue = x.s.queue ++ [x.s.ntasks] ∧ (xRun x .spawn).s.fut x.s.ntasks = some sc) ∧
+    (∀ (s : State) t sc rest, s.pool = sc :: rest →
+      (spawnChild s t).queue = s.queue ++ [s.ntasks] ∧ (spawnChild s t).fut s.ntasks = some sc) := by
+  refine ⟨?_, ?_, ?_⟩
+  · intro sticky scripts roots
+    unfold init
+    rw [(spawnRoots_queue _ _).1]
+    rfl
+  · intro x sc rest hd hp
+    simp only [xRun, xApply, hp, hd, Bool.false_eq_true, if_false, spawnWeak, Option.map_some]
+    exact ⟨rfl, by simp [spawnNew, upd_apply]⟩
+  · intro s t sc rest hp
+    simp only [spawnChild, hp]
+    exact ⟨rfl, by simp [spawnNew, upd_apply]⟩
+
+example : (spawnChild (init false [[.spawn], [.yield]] 1) 0).queue = [0, 1] := by decide
+
+/-- The decidable checks of the Spec (the driver's verdict column) mean exactly the clauses they are
+    named after: both directions. -/
+theorem spec_checks_meaning (s : State) (a b : List Nat) (log : List Ev) :
+    (nodupB a = true ↔ a.Nodup) ∧
+    (fifoB a b = true ↔ ∃ l, b = a.tail ++ l) ∧
+    (noLostB s = true ↔
+      ∀ t acts, t < s.ntasks → s.fut t = some acts → t ∈ s.queue ∨ blockedB s t acts = true) ∧
+    (∀ t acts, blockedB s t acts = true ↔
+      (∃ k rest, acts = .wait k :: rest ∧ t ∈ s.waiters k ∧ s.tokens k = 0) ∨
+      (∃ c cs rest, acts = .join :: rest ∧ s.kids t = c :: cs ∧ s.relay c = .polled t ∧ (s.fut c).isSome = true)) ∧
+    (bracketedB log = true ↔ Bracketed log) ∧
+    (noPollAfterFinB log = true ↔ log.Pairwise fun e e' => ∀ t, e = .ret t true → e' ≠ .poll t) :=
+  ⟨nodupB_iff a, fifoB_iff a b, noLostB_iff s, fun t acts => blockedB_iff s t acts, bracketedB_iff log,
+   noPollAfterFinB_iff log⟩
+
+example : nodupB [1, 2, 1] = false ∧ bracketedB [.poll 0, .poll 1] = false := by decide
 
 end YashModel.Executor
